@@ -61,6 +61,9 @@ type c03File struct {
 	list    []string // join order
 	fail    map[string]bool
 	young   bool // posted late, so that it is still inside its first window at the reward block under test
+	// abandoned: posted at block 4 and never taken up by a prover, so that the reward block under test (height 8) is the
+	// first one at which it is past its first window and gets dropped
+	abandoned bool
 }
 
 func perms(xs []string) [][]string {
@@ -217,7 +220,7 @@ func c03RunOpt2(env world.Env, files []c03File, extraGauge bool, reg3 bool, rais
 	// (window [5,8) of a file started at 2 with interval 3); young files are posted at block 5.
 	// Block 6: a reward block at which everybody is still credited. Block 8: the reward block under test.
 	for i := range files {
-		if !files[i].young {
+		if !files[i].young && !files[i].abandoned {
 			post(i)
 		}
 	}
@@ -226,8 +229,18 @@ func c03RunOpt2(env world.Env, files []c03File, extraGauge bool, reg3 bool, rais
 			cr.Viols = append(cr.Viols, viol("no-panic", "block-panic", "%s", bp.Value))
 			return cr
 		}
+		if h == 4 {
+			for i := range files {
+				if files[i].abandoned {
+					post(i)
+				}
+			}
+		}
 	}
 	for i := range files {
+		if files[i].abandoned {
+			continue
+		}
 		if files[i].young {
 			post(i)
 			continue
@@ -419,6 +432,7 @@ func c03Enum(thorough bool) mc.Enum {
 			}})
 		}
 	}
+	abandonedFiles := []*sfile{mkFile(seqBytes(9, 201), 4), mkFile(seqBytes(9, 202), 4), mkFile(seqBytes(9, 203), 4), mkFile(seqBytes(9, 204), 4)}
 	// two files
 	two := c03Provers[:2]
 	if thorough {
@@ -432,6 +446,11 @@ func c03Enum(thorough bool) mc.Enum {
 					la, fa, lb, fb := la, fa, lb, fb
 					e.Cases = append(e.Cases, mc.Case{Desc: fmt.Sprintf("two|%s|%s", failDesc(la, fa), failDesc(lb, fb)), Run: func(env world.Env) mc.CaseResult {
 						return c03Run(env, []c03File{{f: bySize[7], size: 7, list: la, fail: fa}, {f: fB, size: 1000, list: lb, fail: fb}}, true, true)
+					}})
+					ab := abandonedFiles[len(e.Cases)%len(abandonedFiles)]
+					e.Cases = append(e.Cases, mc.Case{Desc: fmt.Sprintf("two|%s|%s|abandoned=%x", failDesc(la, fa), failDesc(lb, fb), ab.merkle[:2]), Run: func(env world.Env) mc.CaseResult {
+						// a third file nobody took up, dropped at the reward block under test (its content varies, so it sorts before, between or after the others)
+						return c03Run(env, []c03File{{f: bySize[7], size: 7, list: la, fail: fa}, {f: fB, size: 1000, list: lb, fail: fb}, {f: ab, size: 9, abandoned: true, fail: map[string]bool{}}}, true, true)
 					}})
 					e.Cases = append(e.Cases, mc.Case{Desc: fmt.Sprintf("two|%s|%s|atomGauge", failDesc(la, fa), failDesc(lb, fb)), Run: func(env world.Env) mc.CaseResult {
 						return c03RunOpt2(env, []c03File{{f: bySize[7], size: 7, list: la, fail: fa}, {f: fB, size: 1000, list: lb, fail: fb}}, true, true, false, true)
